@@ -154,13 +154,16 @@ class C11(Prop):
           'change, stray value), scripted and seeded random_dna, DNA comparisons. Non-trivial: the spec '
           'has at least 2 DNAs or is non-finite; distinct: by case JSON.')
   trusted_base = [
+      'translator translate/t_c11.py: shape tables of _space_size, next_value_for_choice, min_remaining_choices and '
+      'the _next_dna loop (obligations C11_shape_*: syntactic identity with the tables the model was written from)',
       'harness/c11_geno.py: independent brute-force reference of the member set (itertools.product + filter) '
       'and structural membership test, used by the oracle',
       'random.Random is replaced by a scripted oracle for the model comparison; seeded random.Random runs '
       'are checked by the oracle only',
       'modelled, not verified: validate / use_spec / space_size / first_dna / next_dna / random_dna / __cmp__ '
       '(hand-written Lean mirror tied by correspondence); custom decision points\' user callbacks and hints '
-      'are outside the model; next_dna on non-members is not compared',
+      'are outside the model; next_dna is compared on members AND on the one-step corruptions (tree / None / raises, '
+      'after the binding that next_dna applies to its result)',
       'every clause of the property is a Lean theorem about the model (PgProps/C11.lean); the driver-internal '
       'checks iter == allValid and size == |allValid| on every enumerated spec are now redundant sanity checks',
   ]
@@ -330,7 +333,7 @@ class C11(Prop):
       c['validate'] = verdict(lambda: spec.validate(dna))
       fresh = mk_dna(d['tree'])
       c['bind'] = verdict(lambda: fresh.use_spec(spec))
-      if finite and G.ref_valid(spec_j, c['norm']):
+      if finite:
         try:
           nxt = spec.next_dna(mk_dna(d['tree']))
           c['next'] = None if nxt is None else tree_of(nxt)
@@ -470,10 +473,10 @@ class C11(Prop):
         if member and not ok:
           return {'signature': '%s-rejects-member' % api,
                   'what': '%s raises %s on the member %s' % (api, c[api], c['norm'])}
-      if 'next' in c and c['next'] not in (None, 'error'):
+      if member and 'next' in c and c['next'] not in (None, 'error'):
         if not G.ref_valid(spec, c['next']):
           return {'signature': 'next-not-a-member', 'what': 'next_dna(%s) = %s' % (c['norm'], c['next'])}
-      if c.get('next') == 'error':
+      if member and c.get('next') == 'error':
         return {'signature': 'next-raises-on-member', 'what': 'next_dna(%s) raised %s' % (c['norm'], c.get('next_error'))}
     # random generation returns members
     for r in m['randoms']:
